@@ -65,12 +65,16 @@ _rej = re.compile(r'<<"REJECT", (\d+)(?:, [^>]*)?>>')
 _done = re.compile(r'<<"DONE", (\d+), (\d+)>>')
 
 
-def validate_trace(module, trace_path, scratch, tag, timeout=1800, xmx='3g', cfg_name=None, env_extra=None):
+def validate_trace(module, trace_path, scratch, tag, timeout=1800, xmx='3g', cfg_name=None, env_extra=None, cfg_text=None):
     """Validate one ndjson trace with spec/<module>.tla (+ .cfg).
     Returns (n_events, [rejected 1-based line numbers]).  TLCError on failure."""
     md = os.path.join(scratch, 'md_' + tag)
     os.makedirs(md, exist_ok=True)
     cfg = os.path.join(SPEC, (cfg_name or module) + '.cfg')
+    if cfg_text is not None:        # constants of this one trace (vector type)
+        cfg = os.path.join(scratch, tag + '.cfg')
+        with open(cfg, 'w') as f:
+            f.write(cfg_text)
     cmd = _java(xmx, tmpdir=os.path.join(scratch, 'jtmp')) + ['-workers', '1', '-noGenerateSpecTE', '-metadir', md, '-config', cfg, module + '.tla']
     env = dict(os.environ)
     env['TRACE'] = trace_path
@@ -91,9 +95,11 @@ def validate_trace(module, trace_path, scratch, tag, timeout=1800, xmx='3g', cfg
     return int(d.group(1)), rej
 
 
-def validate_chunks(module, chunk_paths, scratch, prefix, parallel=16, **kw):
+def validate_chunks(module, chunk_paths, scratch, prefix, parallel=16, cfg_texts=None, **kw):
     """Validate many chunks in parallel.  Returns list of (n_events, rejects) in order."""
     def one(i):
+        if cfg_texts is not None:
+            return validate_trace(module, chunk_paths[i], scratch, '%s_%d' % (prefix, i), cfg_text=cfg_texts[i], **kw)
         return validate_trace(module, chunk_paths[i], scratch, '%s_%d' % (prefix, i), **kw)
     with ThreadPoolExecutor(max_workers=parallel) as ex:
         return list(ex.map(one, range(len(chunk_paths))))
